@@ -806,3 +806,110 @@ def check_c20(tier, seed, replay=None, selftest=False):
     chk.assumptions += ["hidden inputs are varied through the trampoline and the drivers' object allocation; differences in addresses "
                         "(ASLR of the guarded mappings) are present in both executions alike"]
     return chk.finish()
+
+
+# ------------------------------------------------------------------------------------------ C18 shared state
+ALL_SRCS = ["main.c", "core.c", "vcall.S", "drv_hash.c", "drv_aes.c", "drv_mh.c", "drv_disp.c"]
+FUNCTIONAL = {"C01", "C02", "C03", "C04", "C05", "C06", "C07", "C09", "C10", "C11", "C15", "FAULT", "C08"}
+
+
+def thread_files(rng, n, rounds):
+    """n command files (one per thread), each on its own objects, all through the dispatched entry points"""
+    files = []
+    kinds = ["hash", "gcm", "xts", "mh", "hash", "rh", "cbc", "hash"]
+    for t in range(n):
+        kind = kinds[t % len(kinds)]
+        fam = "isal" if t % 3 else "legacy"
+        if kind == "hash":
+            alg = ["sha256", "sha1", "md5", "sha512", "sm3"][t % 5]
+            bs = [gen_hash.random_behaviour(rng, alg, fam) for _ in range(rounds)]
+            spec = "TraceHash"
+            maxn = max([int(l.split()[3]) for b in bs for l in b if l.startswith("hmgr ")] + [1])
+            env = {"MAXN": str(maxn)}
+        elif kind == "gcm":
+            bs = [gen_aes.gcm_stream_behaviour(rng, fam, rng.choice([128, 256]), rng.choice(["enc", "dec"]), 0, gen_aes.gcm_stream_pieces(rng, 0))
+                  for _ in range(rounds * 2)]
+            spec, env = "TraceAes", {}
+        elif kind == "xts":
+            bs = [[gen_aes.xts_call(rng, fam, rng.choice([128, 256]), rng.choice(["enc", "dec"]), rng.choice([0, 1]), gen_aes.pick_xts_len(rng))]
+                  for _ in range(rounds * 4)]
+            spec, env = "TraceAes", {}
+        elif kind == "cbc":
+            bs = [[gen_aes.cbc_call(rng, fam, rng.choice([128, 192, 256]), rng.choice(["enc", "dec"]), rng.choice(gen_aes.cbc_lens()))] for _ in range(rounds * 3)]
+            bs += [["kexp %s %d %d %d e" % (fam, rng.choice([128, 192, 256]), rng.randrange(2, 1 << 20), rng.randrange(1 << 20))] for _ in range(rounds)]
+            spec, env = "TraceAes", {}
+        elif kind == "mh":
+            bs = [gen_mh.mh_behaviour(rng, rng.choice(["sha1", "sha256", "murmur"]), fam) for _ in range(rounds * 2)]
+            spec, env = "TraceMh", {}
+        else:
+            bs = [gen_mh.rh_behaviour(rng, fam, "disp") for _ in range(rounds)]
+            spec, env = "TraceMh", {}
+        files.append({"name": "thr%d-%s" % (t, kind), "behaviours": bs, "spec": spec, "env": env})
+    return files
+
+
+@reg("C18")
+def check_c18(tier, seed, replay=None, selftest=False):
+    chk = verif.Check("C18", "exploration", tier, seed)
+    exe_all = build.build_driver("all", ALL_SRCS, wraps=MH_WRAPS)
+    if replay:
+        return machine_check("C18", tier, seed, replay, {"C18"}, "replay")
+    # (i) every event of the single-threaded mix: writable statics change only by a first-call binding
+    mix = machine_mix(seed * 31 + 18, tier, small=True)
+    jobs, outs, nb, ne = run_mix(chk, mix, {"C18"})
+    # (ii) N threads, each on its own objects, simultaneous first calls of the dispatched entry points
+    rng = random.Random(seed * 77 + 18)
+    nthreads = 8 if tier == "quick" else 16
+    rounds = 3 if tier == "quick" else 12
+    reps = 6 if tier == "quick" else 40
+    interference = 0
+    thr_events = 0
+    for rep in range(reps):
+        files = thread_files(rng, nthreads, rounds)
+        d = verif.scratch("par%d" % rep)
+        args = []
+        for i, f in enumerate(files):
+            cp = os.path.join(d, "c%d.cmd" % i)
+            tp = os.path.join(d, "t%d.ndjson" % i)
+            with open(cp, "w") as fh:
+                for k, b in enumerate(f["behaviours"]):
+                    fh.write("mark %d\n" % k + "\n".join(b) + "\n")
+            f["cmd"], f["trace"] = cp, tp
+            args += [cp, tp]
+        rc, err = verif.run_driver(exe_all, "par " + " ".join(args) + "\n", os.path.join(d, "main.ndjson"), timeout=600)
+        if rc:
+            raise verif.MachineryError("threaded driver failed rc=%d: %s" % (rc, err[-600:]))
+
+        def val(f):
+            return verif.validate_trace(f["spec"], f["trace"], env=f["env"])
+        with ThreadPoolExecutor(max_workers=WORKERS) as ex:
+            results = list(ex.map(val, files))
+        for f, r in zip(files, results):
+            thr_events += r["events"]
+            bad = [v for v in r["viol"] if v["p"] in FUNCTIONAL]
+            if not bad:
+                continue
+            # does the same file misbehave when run alone?  Only then it is not interference.
+            solo = os.path.join(d, "solo-" + os.path.basename(f["trace"]))
+            rc, err = verif.run_driver(exe_all, open(f["cmd"]).read(), solo)
+            rs = verif.validate_trace(f["spec"], solo, env=f["env"])
+            if any(v["p"] in FUNCTIONAL for v in rs["viol"]):
+                chk.other["functional-violation-also-single-threaded"] = chk.other.get("functional-violation-also-single-threaded", 0) + 1
+                continue
+            interference += 1
+            v = bad[0]
+            chk.add_violation({"p": "C18", "what": "result-differs-when-run-concurrently", "l": v["l"], "info": [f["name"], v["p"], v["what"], v["info"]]},
+                              replay_lines="# threaded run %d, thread file %s (passes when run alone)\n%s\n" % (rep, f["name"], open(f["cmd"]).read()[:4000]))
+    chk.cov["evaluations"] = ne + thr_events
+    chk.cov["distinct_nontrivial"] = len({hashlib.sha1("\n".join(b).encode()).hexdigest() for j in jobs for b in j["behaviours"]}) + reps * nthreads
+    chk.cov["rule"] = ("(i) every event of the single-threaded call-space mix: Machine!StaticOk - the library's writable sections (renamed and "
+                       "snapshotted around every call) change only when a dispatched entry point performs its first-call binding; (ii) %d runs of "
+                       "%d threads released by a barrier with every dispatch binding re-armed, each thread replaying behaviours on its own "
+                       "manager / context / key objects through the dispatched entry points; every thread's trace is validated against the "
+                       "same sequential specification; a mismatch that disappears when the file is run alone is interference" % (reps, nthreads))
+    chk.cov["samples"] = [{"job": j["name"], "behaviour": j["behaviours"][-1][:5]} for j in jobs[:2]]
+    chk.cov["threaded_runs"] = reps
+    chk.cov["threads_per_run"] = nthreads
+    chk.cov["threaded_events_validated"] = thr_events
+    chk.assumptions += ["thread schedules are whatever the OS produces (free-running); no instruction-level control here (C17 has it for the self-test word)"]
+    return chk.finish()
